@@ -69,7 +69,7 @@ def eval_roundtrip(spec, header, varnames, route):
         except Exception as e:
             return ('dimacs:writer:raises:' + type(e).__name__, 'writer raised {}: {}'.format(type(e).__name__, e))
         try:
-            doc = xr.dimacs_writer_form(text)
+            doc = xr.dimacs_writer_form(text, universal=route == 'file')
         except xr.FormatError as e:
             src = 'body'
             if route != 'to_dimacs':
@@ -77,11 +77,13 @@ def eval_roundtrip(spec, header, varnames, route):
                     if (h, v) == (header, varnames):
                         continue
                     try:
-                        xr.dimacs_writer_form(_render(F, h, v, route, tmp)[0])
+                        xr.dimacs_writer_form(_render(F, h, v, route, tmp)[0], universal=route == 'file')
                         src = name
                         break
                     except xr.FormatError:
                         pass
+            if src != 'body':
+                return ('dimacs:writer:noncomment_line:' + src, 'a line that is neither a comment, the problem line nor a clause of the formula comes from the {}: {}'.format(src, e.msg))
             return ('dimacs:writer:{}:{}'.format(e.kind, src), 'output is not comment lines + problem line + clause lines: {}'.format(e.msg))
         if doc['n'] != exp['n'] or doc['m'] != len(rows):
             return ('dimacs:writer:problem_line', 'problem line says {} variables {} clauses, formula has {} and {}'.format(doc['n'], doc['m'], exp['n'], len(rows)))
@@ -130,6 +132,16 @@ def _rt_worker(job):
     out = []
     for n, clauses, variants in job:
         spec = {'kind': 'cnf', 'n': n, 'clauses': clauses}
+        for (h, v, r) in variants:
+            bad = eval_roundtrip(spec, h, v, r)
+            if bad:
+                out.append((spec, h, v, r, bad))
+    return out
+
+
+def _spec_worker(job):
+    out = []
+    for spec, variants in job:
         for (h, v, r) in variants:
             bad = eval_roundtrip(spec, h, v, r)
             if bad:
@@ -200,7 +212,7 @@ def bounded_families(ctx):
     names = xf.family_names()
     ctx.bounds['roundtrip_families'] = ('{} family instances (two sizes per family of C01-C03 and the other public families), as CNF; '
                                         'transformation chains of length 1 (all 9) {} on 3 bases; renderings: 5 + file route'.format(
-                                            len(names), 'and 2 (all 81)' if thorough else 'and 2 (27 pairs)'))
+                                            len(names), 'and 2 (all 81)' if thorough else 'and 2 (21 pairs)'))
     for name in names:
         spec = {'kind': 'family', 'name': name, 'cls': 'cnf', 'chain': []}
         for (h, v, r) in VARIANTS + [(True, True, 'file')]:
@@ -208,15 +220,22 @@ def bounded_families(ctx):
     bases = ['php_3_2', 'peb_pyr', 'randkcnf_unused']
     chains = [[t] for t in xf.TRANSFORMATIONS]
     pairs = [[a, b] for a in xf.TRANSFORMATIONS for b in xf.TRANSFORMATIONS]
-    if not thorough:
-        pairs = pairs[::3]
+    if not thorough:      # the blow-up of maj/neq followed by another substitution is left to the thorough tier
+        pairs = [p for p in pairs[::3] if p[0][0] not in ('maj', 'neq')]
+    import multiprocessing as mp
+    jobs = []
     for base in bases:
         for chain in chains + pairs:
-            if base != 'peb_pyr' and len(chain) == 2 and not thorough and chain[0][0] in ('maj', 'neq', 'lift'):
-                continue
             spec = {'kind': 'family', 'name': base, 'cls': 'cnf', 'chain': chain}
-            for (h, v, r) in [(True, True, 'stream'), (False, False, 'to_dimacs')] + ([(True, True, 'file')] if len(chain) == 1 else []):
-                _check_rt(ctx, spec, h, v, r, ('chain', base, repr(chain), h, v, r))
+            variants = [(True, True, 'stream'), (False, False, 'to_dimacs')] + ([(True, True, 'file')] if len(chain) == 1 else [])
+            for (h, v, r) in variants:
+                ctx.case(('chain', base, repr(chain), h, v, r))
+            jobs.append([(spec, variants)])
+    with mp.Pool(min(12, os.cpu_count() or 1)) as pool:
+        for res in pool.imap_unordered(_spec_worker, jobs):
+            for spec, h, v, r, bad in res:
+                ctx.violation(bad[0], '{} header={} varnames={} via {} : {}'.format(_short(spec), h, v, r, bad[1]),
+                              {'fn': 'checks.C06:replay_roundtrip', 'args': dict(spec=spec, header=h, varnames=v, route=r)})
     ctx.sample({'roundtrip': {'family': 'php_3_2', 'chain': [['xor', 2], ['shuffle']]}})
 
 
@@ -256,7 +275,7 @@ def eval_header_field(value):
     try:
         doc = xr.dimacs_writer_form(s.getvalue())
     except xr.FormatError as e:
-        return ('dimacs:writer:{}:header'.format(e.kind), e.msg)
+        return ('dimacs:writer:noncomment_line:header', e.msg)
     if (doc['n'], doc['clauses']) != (2, [[1, -2], [2]]):
         return ('dimacs:writer:clauses', 'wrong content')
     try:
@@ -529,7 +548,7 @@ def run(ctx):
         fn(ctx)
     ctx.assume('independent readers in vlib/x_readers.py (dimacs_writer_form, dimacs_lenient): written from the DIMACS format and the property statement, no cnfgen code')
     ctx.assume('in-memory reference of a family formula = list(F), F.number_of_variables(); of a hand-built formula = the clauses handed to add_clause')
-    ctx.assume("a 'line' of the output is what a text-file consumer sees: broken at \\n, \\r\\n and \\r")
+    ctx.assume("a 'line' of the output is broken at \\n; for output written to a path also at \\r\\n and \\r (what a text-mode consumer, cnfgen's reader included, sees)")
 
 
 def replay(ctx, data):
